@@ -392,6 +392,8 @@ func (o *vzOracles) onReplayResult(nd *vzNode, hdr tmconsensus.Header, proof tmc
 		o.violate("C07", "replay-accepted/foreign-validator-set", "%s accepted a replayed header for height %d whose validator set is not the chain's", nd.ident(), hdr.Height)
 	case "foreign-prev-replay":
 		o.violate("C04", "replay-accepted/foreign-predecessor", "%s accepted a replayed header for height %d that names a predecessor other than the committed one", nd.ident(), hdr.Height)
+	case "tampered-valset-replay":
+		o.violate("C07", "replay-accepted/validator-list-tampered", "%s accepted a replayed header for height %d whose validator list does not match the validator hashes covered by its block hash", nd.ident(), hdr.Height)
 	case "corrupt-replay":
 		o.violate("C05", "replay-accepted/corrupt-signature", "%s accepted a replayed header for height %d although a certificate signature does not verify", nd.ident(), hdr.Height)
 	}
